@@ -104,3 +104,78 @@ pub fn c15_commitment_scalars_round_trip(x: &ProofCommitmentSecret, y: &ProofCom
     let r = ProofCommitmentChallenge::try_from(v.as_slice());
     assert(r is Ok && r->Ok_0.0 == y.0);
 }
+
+/// the scheme label survives its one-byte form (the serialized tag is the pinned discriminant)
+pub fn c15_scheme_tag_round_trip(s: SignatureSchemes)
+{
+    let t: u8 = match s { SignatureSchemes::Basic => 0u8, SignatureSchemes::MessageAugmentation => 1u8, SignatureSchemes::ProofOfPossession => 2u8 };
+    assert(t == scheme_tag(s));
+    let r = SignatureSchemes::from(t);
+    assert(r == s);
+}
+
+/// the serde_bare byte form of every container type: the wrapper hands the WHOLE value to the encoder
+/// and returns exactly what the decoder yields, so (L-SERDE: the encoding is lossless) every value
+/// comes back unchanged — variant, points, scalars, payload bytes
+pub fn c15_bare_forms_round_trip(x0: &Signature, x1: &AggregateSignature, x2: &MultiSignature, x3: &ProofOfKnowledge, x4: &ProofOfKnowledgeTimestamp, x5: &TimeCryptCiphertext, x6: &SignCryptCiphertext, x7: &SignCryptDecryptionKey, x8: &ElGamalCiphertext, x9: &ElGamalProof, x10: &ElGamalDecryptionShare, x11: &ElGamalDecryptionKey, x12: &SecretKeyShare, x13: &ProofCommitment)
+{
+    proof { axiom_commitment_bare_len(*x13); }
+    let v0 = Vec::from(x0);
+    let r0 = Signature::try_from(v0.as_slice());
+    assert(r0 is Ok && r0->Ok_0 == *x0);
+    let v1 = Vec::from(x1);
+    let r1 = AggregateSignature::try_from(v1.as_slice());
+    assert(r1 is Ok && r1->Ok_0 == *x1);
+    let v2 = Vec::from(x2);
+    let r2 = MultiSignature::try_from(v2.as_slice());
+    assert(r2 is Ok && r2->Ok_0 == *x2);
+    let v3 = Vec::from(x3);
+    let r3 = ProofOfKnowledge::try_from(v3.as_slice());
+    assert(r3 is Ok && r3->Ok_0 == *x3);
+    let v4 = Vec::from(x4);
+    let r4 = ProofOfKnowledgeTimestamp::try_from(v4.as_slice());
+    assert(r4 is Ok && r4->Ok_0 == *x4);
+    let v5 = Vec::from(x5);
+    let r5 = TimeCryptCiphertext::try_from(v5.as_slice());
+    assert(r5 is Ok && r5->Ok_0 == *x5);
+    let v6 = Vec::from(x6);
+    let r6 = SignCryptCiphertext::try_from(v6.as_slice());
+    assert(r6 is Ok && r6->Ok_0 == *x6);
+    let v7 = Vec::from(x7);
+    let r7 = SignCryptDecryptionKey::try_from(v7.as_slice());
+    assert(r7 is Ok && r7->Ok_0 == *x7);
+    let v8 = Vec::from(x8);
+    let r8 = ElGamalCiphertext::try_from(v8.as_slice());
+    assert(r8 is Ok && r8->Ok_0 == *x8);
+    let v9 = Vec::from(x9);
+    let r9 = ElGamalProof::try_from(v9.as_slice());
+    assert(r9 is Ok && r9->Ok_0 == *x9);
+    let v10 = Vec::from(x10);
+    let r10 = ElGamalDecryptionShare::try_from(v10.as_slice());
+    assert(r10 is Ok && r10->Ok_0 == *x10);
+    let v11 = Vec::from(x11);
+    let r11 = ElGamalDecryptionKey::try_from(v11.as_slice());
+    assert(r11 is Ok && r11->Ok_0 == *x11);
+    let v12 = Vec::from(x12);
+    let r12 = SecretKeyShare::try_from(v12.as_slice());
+    assert(r12 is Ok && r12->Ok_0 == *x12);
+    let v13 = Vec::from(x13);
+    let r13 = ProofCommitment::try_from(v13.as_slice());
+    assert(r13 is Ok && r13->Ok_0 == *x13);
+}
+
+/// shares: the wrapper encodes its inner share; a signature share keeps its scheme (the tag byte
+/// written is the one the decoder maps back to the same variant)
+pub fn c15_share_forms_round_trip(p: &PublicKeyShare, d: &SignDecryptionShare, s: &SignatureShare)
+{
+    let v = Vec::from(p);
+    let r = PublicKeyShare::try_from(v.as_slice());
+    assert(r is Ok && r->Ok_0.0 == p.0);
+    let v = Vec::from(d);
+    let r = SignDecryptionShare::try_from(v.as_slice());
+    assert(r is Ok && r->Ok_0.0 == d.0);
+    proof { axiom_sshare_bare(sshare_scheme(*s), sshare_raw(*s)); }
+    let v = Vec::from(s);
+    let r = SignatureShare::try_from(v.as_slice());
+    assert(r is Ok && r->Ok_0 == *s);
+}
